@@ -4,6 +4,7 @@
 //!   palsim replay <file>
 //!   palsim digest <id> --count N [...]
 //!   palsim show <id> --index N [...]
+//!   palsim counts <id> [--tier t]
 //!
 //! Exit codes: 0 held, 1 violation (with a `VIOLATION property=<id> replay=<path>` line),
 //! 2 harness error.
@@ -76,6 +77,7 @@ trait Dispatch {
     fn replay(&self, path: &std::path::Path, known: &Known) -> i32;
     fn digest(&self, cfg: &BatchConfig, n: u64) -> i32;
     fn show(&self, cfg: &BatchConfig, index: u64) -> i32;
+    fn counts(&self, cfg: &BatchConfig) -> (u64, u64);
 }
 
 impl<W: World> Dispatch for W {
@@ -90,6 +92,9 @@ impl<W: World> Dispatch for W {
     }
     fn show(&self, cfg: &BatchConfig, index: u64) -> i32 {
         show_cmd(self, cfg, index)
+    }
+    fn counts(&self, cfg: &BatchConfig) -> (u64, u64) {
+        (self.enumerated(cfg.tier), cfg.runs_override.unwrap_or_else(|| self.random_runs(cfg.tier)))
     }
 }
 
@@ -144,6 +149,17 @@ fn real_main(args: &[String]) -> i32 {
             let cfg = config(args);
             let n = arg_value(args, "--count").and_then(|s| s.parse().ok()).unwrap_or(1000);
             with_world(id, |w| w.digest(&cfg, n)).unwrap_or(2)
+        }
+        "counts" => {
+            // `palsim counts <id> [--tier t]`: sizes of the enumerated front and of the seeded part
+            let Some(id) = args.get(2) else { return 2 };
+            let cfg = config(args);
+            with_world(id, |w| {
+                let (e, r) = w.counts(&cfg);
+                println!("enumerated {e} seeded {r}");
+                0
+            })
+            .unwrap_or(2)
         }
         "show" => {
             let Some(id) = args.get(2) else { return 2 };
